@@ -38,7 +38,12 @@ func (m *mapper) node(n ast.Node) {
 		return
 	}
 	if cc, ok := n.(*ast.CommClause); ok {
-		// the communication itself is handled by the select rewrite; only the body is mapped
+		// the communication itself is handled by the select rewrite; only the body is mapped. Expression-only
+		// mappers (the time rewrite) must still see the communication: `case <-time.After(d):` has to become the
+		// virtual-clock call BEFORE the select rewrite hoists the operand, or the timer stays a real one.
+		if m.stmt == nil && m.preStmt == nil && cc.Comm != nil {
+			m.node(cc.Comm)
+		}
 		for i, s := range cc.Body {
 			cc.Body[i] = m.mapStmt(s)
 		}
